@@ -55,3 +55,24 @@ package errors
 //@ use casketfile/contracts_verif.go:dispenser_api
 //@ use @verif/specs/stdlib.spec:stdlib
 //@ use @verif/specs/stdlib.spec:casket_api
+
+//@ unit errors_setup props=C12 filter=`errors\.setup$`
+//@ // The error handler logs through handler.Log on every error and every recovered panic; that logger only works after
+//@ // its Start hook ran (it creates the logger and its mutex), whatever the destination. So a successful setup has always
+//@ // attached the handler's own logger to the controller, exactly once.
+//@ ghost attached int
+//@ ghost attachedLogger int
+//@ func errorsParse
+//@   ensures result1 == nil ==> (result0 != nil && result0.Log != nil)
+//@ extern (*github.com/tmpim/casket/caskethttp/httpserver.Logger).Attach
+//@   modifies ghost:attached, ghost:attachedLogger
+//@   ensures attached == old(attached) + 1 && attachedLogger == l
+//@ use @verif/specs/stdlib.spec:casket_api
+//@ extern (*github.com/tmpim/casket/caskethttp/httpserver.SiteConfig).AddMiddleware
+//@ ghost parsedLogger int
+//@ func setup
+//@   requires c != nil
+//@   modifies ghost:attached, ghost:attachedLogger, ghost:parsedLogger
+//@   at call errorsParse do parsedLogger = result0.Log
+//@   ensures [logger_attached_on_success] result == nil ==> (attached == old(attached) + 1 && attachedLogger == parsedLogger)
+//@   ensures [nothing_attached_on_error] result != nil ==> attached == old(attached)
